@@ -318,24 +318,21 @@ def run_check(pid, tier, seed, replay, t0, debug=False):
         rep = json.load(open(replay))
         cases = [rep["case"]] if "case" in rep and rep["case"] is not None else []
         if cases and rep.get("history"):
-            # some failures need what the process did before (caches, module-level state): if the recorded case passes in
-            # isolation, replay the recorded run up to and including it
-            try:
-                with quiet():
-                    alone = mod.run(cases[0])
-            except Timeout:
-                alone = None
-            if alone is not None and not alone.oracle:
-                h = rep["history"]
-                prefix = all_cases(h["seed"], h["tier"])[:h["index"] + 1]
-                if prefix and json.dumps(prefix[-1], sort_keys=True) == json.dumps(dict(cases[0], **({"_corpus": prefix[-1]["_corpus"]} if "_corpus" in prefix[-1] else {})), sort_keys=True):
-                    print(f"(the recorded case passes in isolation: replaying the {len(prefix) - 1} cases that preceded it in the recorded run first)")
-                    for c_ in prefix[:-1]:
-                        try:
-                            with quiet():
-                                mod.run(c_)
-                        except BaseException:  # noqa: BLE001
-                            pass
+            # some failures need what the process did before (caches, module-level state): replay the recorded run up to the
+            # recorded case first (same PRNG seed, same tier, same corpus), then the case itself
+            h = rep["history"]
+            prefix = all_cases(h["seed"], h["tier"])[:h["index"] + 1]
+            same = bool(prefix) and json.dumps({k: v for k, v in prefix[-1].items() if k != "_corpus"}, sort_keys=True) == \
+                json.dumps({k: v for k, v in cases[0].items() if k != "_corpus"}, sort_keys=True)
+            if same and len(prefix) > 1:
+                print(f"(replaying the {len(prefix) - 1} cases that preceded the recorded case in its run first: some failures depend on "
+                      f"what the process did before)")
+                for c_ in prefix[:-1]:
+                    try:
+                        with quiet():
+                            mod.run(c_)
+                    except BaseException:  # noqa: BLE001
+                        pass
     else:
         cases = []
         cdir = os.path.join(ROOT, "corpus", pid)
